@@ -260,8 +260,13 @@ def run(p):
         except Exception as ex:  # noqa
             l1, l2, _, _ = ellipse_oracle(v)
             sing = blk_tr == 0 or float(l2) <= 1e-12 * blk_tr
-            p.violation('ellipse:singular-raises' if sing else 'ellipse:raises', 'ellipse_defined', inp,
-                        f'{type(ex).__name__}: {ex}', [float(mp.sqrt(l1)), float(mp.sqrt(max(l2, 0))), 'orientation'], call)
+            key = 'ellipse:singular-raises' if sing else 'ellipse:raises'
+            # one defect, many inputs: record a handful of replays, count the rest
+            if sum(x['key'] == key for x in p.violations) < 6:
+                p.violation(key, 'ellipse_defined', inp, f'{type(ex).__name__}: {ex}',
+                            [float(mp.sqrt(l1)), float(mp.sqrt(max(l2, 0))), 'orientation'], call)
+            else:
+                p.stats.add('VIOLATION:ellipse_defined')
             continue
         check_ellipse(p, 'ellipse:axes', 'ellipse:orientation', 'ellipse', inp, got, v, call, worst)
     # (e) relative error between two stations
